@@ -99,6 +99,10 @@ type Opts struct {
 	// Salt perturbs every generated value (used by the reference model to
 	// find out which jobs really depend on a producer's outputs).
 	Salt string
+	// ChunkChoices overrides the set of chunk counts a split may return.
+	ChunkChoices []int
+	// ArrayLens overrides the lengths of generated top-level arrays / maps.
+	ArrayLens []int
 	// FlipBools negates generated bool outputs.
 	FlipBools bool
 	// NullPct: percentage of positions (below the top level of bool outputs)
@@ -113,6 +117,9 @@ func genValue(r *rng, u *mrogen.Universe, prog *mrogen.Program, ty mrogen.Ty, o 
 	}
 	if el, ok := ty.Elem(); ok {
 		n := []int{0, 1, 2, 2, 3, 3}[r.intn(6)]
+		if top && len(o.ArrayLens) > 0 {
+			n = o.ArrayLens[r.intn(len(o.ArrayLens))]
+		}
 		if ty.IsArray() {
 			a := make([]any, 0, n)
 			for i := 0; i < n; i++ {
@@ -122,7 +129,11 @@ func genValue(r *rng, u *mrogen.Universe, prog *mrogen.Program, ty mrogen.Ty, o 
 		}
 		obj := jsonx.NewObj()
 		for i := 0; i < n; i++ {
-			obj.Set(outKeys[r.intn(len(outKeys))], genValue(r, u, prog, el, o, false))
+			k := outKeys[r.intn(len(outKeys))]
+			if n > len(outKeys)/2 {
+				k += strconv.Itoa(i) // many keys: keep them distinct
+			}
+			obj.Set(k, genValue(r, u, prog, el, o, false))
 		}
 		return obj
 	}
@@ -181,7 +192,11 @@ type StageDefs struct {
 func SplitDefs(prog *mrogen.Program, st *mrogen.Stage, args *jsonx.Obj, o *Opts) *StageDefs {
 	h := o.Salt + canonForHash(args, true)
 	r := seed(st.Name, "split", h)
-	n := []int{0, 1, 2, 2, 3, 3, 11}[r.intn(7)]
+	choices := []int{0, 1, 2, 2, 3, 3, 11}
+	if len(o.ChunkChoices) > 0 {
+		choices = o.ChunkChoices
+	}
+	n := choices[r.intn(len(choices))]
 	d := &StageDefs{Join: jsonx.NewObj()}
 	for i := 0; i < n; i++ {
 		c := jsonx.NewObj()
